@@ -55,6 +55,32 @@ def run_seed(name):
     return name, {0: "MISSED", 1: "ok", 2: "ANALYSIS-ERROR"}.get(rc, "rc%d" % rc), lines[:2]
 
 
+def refresh_seed(name):
+    """re-run all 20 checks on a seeded change and rewrite `checks_that_fire` in its meta.json"""
+    d = os.path.join(VERIF, "seeded", name)
+    tree = wt()
+    sh("git -C %s checkout -- ." % tree)
+    rc, out = sh("git -C %s apply --whitespace=nowarn %s/patch.diff" % (tree, d))
+    if rc != 0:
+        return name, "APPLY-FAILED", [out[-150:]]
+    fired = {}
+    try:
+        for p in PROPS:
+            rc, lines = check(p, tree)
+            if rc != 0:
+                fired[p] = {"exit": rc, "findings": sorted({l.split(" at ")[0].replace("rule=", "") for l in lines if l.startswith("rule=")})[:6]}
+    finally:
+        sh("git -C %s checkout -- ." % tree)
+    mp = os.path.join(d, "meta.json")
+    m = json.load(open(mp))
+    m["checks_that_fire"] = fired
+    m["caught_by_target_property"] = name[:3] in fired and fired[name[:3]]["exit"] == 1
+    m["caught_by_any"] = any(v["exit"] == 1 for v in fired.values())
+    m["checks_refreshed_at_verif_commit"] = sh("git -C %s rev-parse --short HEAD" % VERIF)[1].strip()
+    json.dump(m, open(mp, "w"), indent=1)
+    return name, "ok" if m["caught_by_target_property"] else "MISSED", []
+
+
 def run_refactor(name):
     d = os.path.join(VERIF, "refactors", name)
     tree = wt()
@@ -81,8 +107,10 @@ def main():
         jobs = int(args[args.index("-j") + 1])
     if "--only" in args:
         only = args[args.index("--only") + 1]
-    kinds = [a for a in args if a in ("seeds", "refactors")] or ["seeds", "refactors"]
+    kinds = [a for a in args if a in ("seeds", "refactors", "refresh-meta")] or ["seeds", "refactors"]
     tasks = []
+    if "refresh-meta" in kinds:
+        tasks += [(refresh_seed, n) for n in sorted(os.listdir(os.path.join(VERIF, "seeded"))) if not only or n.startswith(only)]
     if "seeds" in kinds:
         tasks += [(run_seed, n) for n in sorted(os.listdir(os.path.join(VERIF, "seeded"))) if not only or n.startswith(only)]
     if "refactors" in kinds:
